@@ -428,6 +428,11 @@ func (b *Bar) serve(bs *bState) {
 func (b *Bar) render(tw int) {
 	fn := func(s *bState) {
 		frame := new(renderFrame)
+		if !s.aborted && !s.completed() && b.ctx.Err() != nil {
+			// ctx was canceled without calling b.Abort and this frame may be
+			// the last one: draw the bar as what it is going to report.
+			s.aborted = true
+		}
 		verifhook.Event(verifhook.BarRender, b, s.current, s.total, s.refill, s.aborted, s.completed(), s.shutdown, tw)
 		stat := s.newStatistics(tw)
 		r, err := s.draw(stat)
